@@ -202,3 +202,38 @@ Section Entry.
   Definition lint_string_m (s : src) : option linted := if scan_ok s then Some (pipeline s) else None.
   Definition lint_path_m (s : src) : option linted := Some (pipeline s).
 End Entry.
+
+(* ---------- the end of [Linter::lint_parsed]: last ignore-mask filter, hand-over to the formatter, result *)
+
+(** A violation collected for a file before the last filter (templating / lexing / parsing errors of the
+    [ParsedString], errors of malformed noqa directives, rule violations of the first pass) together with the
+    answer of the file's ignore mask for it ([IgnoreMask::is_masked]; [false] when noqa is disabled). The mask
+    itself is an oracle here (property C10). Rule violations are already masked rule by rule inside
+    [lint_fix_parsed]; this filter is the only one that sees the violations without a rule. *)
+Definition cviol := (viol * bool)%type.
+
+Definition unmasked (raw : list cviol) : list viol := map fst (filter (fun x => negb (snd x)) raw).
+
+(** [lint_parsed] after [lint_fix_parsed] (core.rs): filter with the mask, build the [LintedFile], hand it to the
+    formatter ([Formatter::dispatch_file_violations], any implementation of the public trait), return it.
+    Result: (the violations of the file the formatter is given, [LintedFile::violations] of the returned file). *)
+Definition lint_parsed_end (raw : list cviol) : list viol * list viol :=
+  let violations := unmasked raw in
+  let linted_file := violations in
+  (linted_file, linted_file).
+Definition fed (raw : list cviol) : list viol := fst (lint_parsed_end raw).
+Definition returned (raw : list cviol) : list viol := snd (lint_parsed_end raw).
+
+(** The front-ends on top of it. lint: the formatter prints what it is fed, the exit code is its [has_fail]. *)
+Definition lint_front (verb : Z) (fmt : format) (raws : list (list cviol)) : N * list (list rline * header) :=
+  run_lint_v verb fmt (map fed raws).
+
+(** fix: the formatter prints what it is fed; "nothing to fix", the exit code and the writes are decided on the
+    returned files. Result: the printed lines per file, (exit code, writes). *)
+Record cfile := { c_id : N; c_raw : list cviol; c_fixed : N }.
+Definition returned_file (f : cfile) : ffile := {| f_id := c_id f; f_viols := returned (c_raw f); f_fixed := c_fixed f |}.
+Definition fix_front (fmt : format) (proceed : bool) (files : list cfile) : option (list (list rline) * (N * list (N * N))) :=
+  match dispatch_all false fmt (map (fun f => fed (c_raw f)) files), run_fix fmt proceed (map returned_file files) with
+  | Some (reps, _), Some r => Some (reps, r)
+  | _, _ => None
+  end.
